@@ -1225,18 +1225,33 @@ var leaves = []leafT{
 }
 
 func genScriptPath(k *keys, lf leafT, sh [2]int, idx int, ht byte, ax []byte) (l []*vcase) {
+	return genScriptPathDepth(k, lf, sh, idx, ht, ax, 0)
+}
+
+// genScriptPathDepth: the leaf sits under a Merkle path of the given depth (the
+// signature digest commits to the TAPLEAF hash, never to an inner node or the root).
+func genScriptPathDepth(k *keys, lf leafT, sh [2]int, idx int, ht byte, ax []byte, depth int) (l []*vcase) {
 	scr := lf.script(k)
 	leafHash := refhash.TapLeafHash(0xc0, scr)
-	// output key Q = lift_x(B) + H_TapTweak(B || leafHash) * G
-	tw := refhash.TapTweakHash(k.xB, leafHash[:])
+	var path []byte
+	for i := 0; i < depth; i++ {
+		sib := refhash.TapLeafHash(0xc0, []byte{0x51, byte(0x52 + i)})
+		if i%2 == 1 {
+			sib[0] ^= 0xff // make sibling order differ between levels
+		}
+		path = append(path, sib[:]...)
+	}
+	root := refhash.MerkleRootFromPath(leafHash, path)
+	// output key Q = lift_x(B) + H_TapTweak(B || root) * G
+	tw := refhash.TapTweakHash(k.xB, root[:])
 	P, okP := refsecp.LiftX(refsecp.Int(k.xB))
 	if !okP {
 		ev.HarnessError("internal key not liftable")
 	}
 	Q := refsecp.Add(P, refsecp.MulG(new(big.Int).SetBytes(tw[:])))
 	qx := refsecp.B32(Q.X)
-	ctrl := cat([]byte{0xc0 | byte(Q.Y.Bit(0))}, k.xB)
-	if !refsig.TaprootTweakCheck(qx, Q.Y.Bit(0) == 1, k.xB, leafHash[:]) {
+	ctrl := cat([]byte{0xc0 | byte(Q.Y.Bit(0))}, k.xB, path)
+	if !refsig.TaprootTweakCheck(qx, Q.Y.Bit(0) == 1, k.xB, root[:]) {
 		ev.HarnessError("tweak self-check")
 	}
 	spk := cat([]byte{0x51, 0x20}, qx)
@@ -1264,6 +1279,16 @@ func genScriptPath(k *keys, lf leafT, sh [2]int, idx int, ht byte, ax []byte) (l
 	t0, sp0 := mkSpent()
 	d, ok := refhash.Taproot(t0, sp0, idx, ht, ax, ext)
 	lb := fmt.Sprintf("taproot/scriptpath-%s/idx%d/ht%02x/annex=%v", lf.name, idx, ht, ax != nil)
+	if depth > 0 {
+		lb += fmt.Sprintf("/merkle-depth-%d", depth)
+	}
+	if ok && depth > 0 {
+		// a signature over the digest with the Merkle root in place of the tapleaf hash
+		dr, _ := refhash.Taproot(t0, sp0, idx, ht, ax, &refhash.TapExt{LeafHash: root, CodeSepPos: lf.pos})
+		t, sp := mk(dr, ht != 0)
+		l = append(l, &vcase{label: lb + "/root-as-leaf-hash", tx: t, spent: sp, idx: idx, flags: fBase, expect: false,
+			key: "verify/taproot/scriptpath/merkle-root-used-as-tapleaf-hash-accepted", why: "BIP342 commits to the tapleaf hash of the executed script"})
+	}
 	if !ok {
 		why := noDigestWhy(ht)
 		for _, alt := range []struct {
@@ -1365,6 +1390,12 @@ func verdictGens(thorough bool) (gens []func() []*vcase) {
 					}
 					lf, idx, ht, ax := lf, idx, byte(ht), ax
 					add(func() []*vcase { return genScriptPath(k, lf, [2]int{2, 1}, idx, ht, ax) })
+					if valid && (lf.name == "plain" || lf.name == "sep@1") && (thorough || ht <= 1 || ht == 0x83) {
+						for depth := 1; depth <= 2; depth++ {
+							depth := depth
+							add(func() []*vcase { return genScriptPathDepth(k, lf, [2]int{2, 1}, idx, ht, ax, depth) })
+						}
+					}
 				}
 			}
 		}
